@@ -1,8 +1,25 @@
-"""C02 -- contracts (proof part under construction) + bounded stand-in."""
-from pyvc.runner import Bounded
+"""C02 -- every format computes the published algorithm bit for bit."""
+from contracts import shacrypt
+from pyvc.runner import Bounded, Finite
 
 LEVEL = "other"
-EXPLANATION = "bounded stand-in only so far: the contracts of this property are checked on the real functions over the stated finite domains (see coverage.bounded); nothing is counted as proved."
-ASSUMPTIONS = []
-CONTRACTS = []
-BOUNDED = [Bounded("c02", "harness/c02.py", descr="see harness docstring", timeout=900)]
+EXPLANATION = (
+    "Decided by comparison with independent implementations (bounded stand-in): ~85 formats, both directions, against "
+    "references written from the published specifications (/verif/specs/ref_*.py), crypt(3), Django, the bcrypt package "
+    "and hashlib.scrypt over the length / salt / cost grid of the property statement -- foreign code (libcrypt, OpenSSL) "
+    "cannot be put under contract. Proved part (thorough tier, ~8 min): the optimised SHA-crypt routines "
+    "passlib/handlers/sha2_crypt.py::_raw_sha2_crypt (sha256 and sha512 variants) and libpass/hashers/sha_crypt.py::"
+    "_sha_crypt are verified from their real source, with the hash abstract, to compute Drepper's published algorithm for "
+    "EVERY password, salt and round count: digests A (bit walk over len(pwd)), P (password repeated len(pwd) times, both "
+    "the one-shot and the fixed-memory branch), S, and the 42-round block schedule / tail against the published "
+    "recurrence C(i+1) = H((P if i odd else Ci) + (S if i%3) + (P if i%7) + (Ci if i odd else P)) by per-pair ghost "
+    "lock-step; quick tier: the two copies of the schedule and transposition tables are identical (finite)."
+)
+ASSUMPTIONS = [
+    "hash objects: view = bytes absorbed, update appends, digest() = H(view) with a 32..64 byte digest (hashlib contract)",
+    "repeat_string and encode_transposed_bytes are uninterpreted on both sides (C12 covers the encoder; tables compared separately)",
+    "digest primitives, libcrypt, Django, bcrypt are trusted oracles of the bounded comparison",
+]
+CONTRACTS = [shacrypt.passlib_contract("C02", False), shacrypt.passlib_contract("C02", True), shacrypt.libpass_contract("C02")]
+FINITE = [Finite("sha-crypt-tables-identical", shacrypt.tables_equal, "passlib and libpass carry identical _c_digest_offsets / transposition tables")]
+BOUNDED = [Bounded("c02", "harness/c02.py", descr="~85 formats against independent references, crypt(3), Django, bcrypt, hashlib.scrypt", timeout=900)]
